@@ -401,9 +401,16 @@ class Context:
                         obj._setters.pop(prop_name, None)
                 elif present("value"):
                     # a data descriptor replaces an accessor of the same name
+                    was_accessor = prop_name in obj._getters or prop_name in obj._setters
                     obj._getters.pop(prop_name, None)
                     obj._setters.pop(prop_name, None)
                     obj.set(prop_name, descriptor.get("value"))
+                    if was_accessor:
+                        # ... and keeps its place among the keys
+                        props = obj._properties
+                        ordered = {k: props[k] for k in obj._order if k in props}
+                        ordered.update(props)
+                        obj._properties = ordered
 
             return obj
 
